@@ -548,7 +548,7 @@ func run[V any](r *engine.Rec, c *cfg[V], maxN int) {
 				return viol("constructor "+op.K+" wrong contents", fmt.Sprintf("got %v want %v", obj.AsArray(), m))
 			}
 			r.Outcome("ctor")
-			return seqx.Step{Key: dump.Dump(obj), Size: len(m), Expand: true}
+			return seqx.Step{Key: ctorKey(op) + dump.Dump(obj), Size: len(m), Expand: true}
 		}
 		// rebuild
 		obj, m, guards, out := constructG(c, path[0])
@@ -687,9 +687,17 @@ func run[V any](r *engine.Rec, c *cfg[V], maxN int) {
 		if len(r.Samples) < 2 && len(path) >= 2 {
 			r.Sample(map[string]any{"search": name, "path": fmt.Sprint(path), "op": op.String(), "state_after": fmt.Sprint(ns)})
 		}
-		return seqx.Step{Key: after, Size: len(ns), Expand: true}
+		return seqx.Step{Key: ctorKey(path[0]) + after, Size: len(ns), Expand: true}
 	}
 	s.Run(r)
+}
+
+// ctorKey keeps states whose constructor operands are guarded apart from structurally equal ones
+func ctorKey(op Op) string {
+	if op.K == "Concatenate" || op.K == "MakeFromSequence" {
+		return "guarded:"
+	}
+	return ""
 }
 
 func failKind(o rt.Outcome) string {
